@@ -26,6 +26,9 @@ CHECKS = {
  "C14": dict(level="exploration", technique="property-based testing (Hypothesis): layout-first disc generation vs extent-arithmetic reference model and cross-command invariants",
    text="free, space, sector-map and extract-unused are compared with extent arithmetic computed from the generated layout, for zero-length files, gaps of every size, empty Watford halves and all Opus volumes.",
    note="Trusted: reference extent arithmetic; two points on which the statement is silent accept both answers (counted as ambiguous in evidence).", ref="4 C14"),
+ "C15": dict(level="exploration", technique="property-based testing (Hypothesis) + exhaustive single-character enumeration vs an independent recursive wildcard matcher",
+   text="info WILDCARD and type NAME on generated catalogues over the whole DFS character set (regex metacharacters, mixed case, Opus volume letters, defaulted drive/dir) compared with a reference matcher written from dfs.1; all single-character name/pattern pairs enumerated.",
+   note="Trusted: the reference matcher; malformed wildcards are only required to select nothing.", ref="4 C15"),
 }
 
 def main():
